@@ -128,7 +128,7 @@ def grep_forbidden(files):
     return bad
 
 
-def coq_make(targets, timeout=900, jobs=16):
+def coq_make(targets, timeout=2400, jobs=16):
     with Lock('coq'):
         rc, out = sh([os.path.join(ROOT, 'tools', 'mkcoq.sh')], 120)
         if rc != 0:
